@@ -45,7 +45,7 @@ def evaluate(prop, recs):
     compare = getattr(prop, "compare", default_compare)
     fails, diffs = [], []
     for r in recs:
-        if r["spec"] != "ok":
+        if not r["spec"].startswith("ok"):
             r["why"] = r["spec"]
             fails.append(r)
         else:
